@@ -51,6 +51,28 @@ def _select(case):
     return probs
 
 
+def _neartie(job):
+    """two candidates whose KS distances differ by less than 1/n, the maxima sitting on opposite sides of the empirical cdf"""
+    from scipy.stats import kstest, norm
+    from copulas.univariate.selection import select_univariate
+    from ..stubs import shift_class
+    n, delta, gap, order = job
+    X = np.random.RandomState(9).permutation(norm.ppf((np.arange(n) + 0.5) / n))
+    up = shift_class('up', delta)
+    down = shift_class('down', -(delta + gap / n))
+    cands = [up, down] if order == 0 else [down, up]
+    ks = []
+    for c in cands:
+        inst = c()
+        inst.fit(X.copy())
+        ks.append(float(kstest(X, inst.cdf)[0]))
+    chosen = type(select_univariate(X.copy(), list(cands)))
+    k = ks[cands.index(chosen)]
+    if k > min(ks) + 1e-12:
+        return [('selected-candidate-not-of-minimal-KS', 'near tie n=%d: chose %s with KS %.6f although %.6f is available' % (n, chosen.__name__, k, min(ks)))]
+    return []
+
+
 DATA = {
     'normal': lambda rs: rs.normal(3, 2, 150),
     'uniform': lambda rs: rs.uniform(-1, 4, 150),
@@ -194,12 +216,18 @@ def run(ctx):
             size = int(rs.choice([2, 3, 4]))
             names = tuple(sorted(rs.choice(PARAM, size=size, replace=False).tolist()))
             real.append((d, names, ctx.seed + k))
+    near = [(n, d, g, o) for n in (40, 100, 300) for d in (0.02, 0.05, 0.11) for g in (0.3, 0.6, 0.9) for o in (0, 1)]
+    # the full list of parametric families on more data sets (near ties between real families do occur)
+    for d in DATA:
+        for k in range(3 if quick else 12):
+            real.append((d, tuple(sorted(PARAM[:7])), ctx.seed + 100 + k))
     with Pool(16) as pool:
+        rnear = pool.map(_neartie, near, chunksize=4)
         rsel = pool.map(_select, allc['select'], chunksize=8)
         rfil = pool.map(_filter, allc['filter'], chunksize=2)
         rdis = pool.map(_dispatch, allc['dispatch'], chunksize=2)
         rreal = pool.map(_real, real, chunksize=1)
-    for kind, cases, res in (('select', allc['select'], rsel), ('filter', allc['filter'], rfil), ('dispatch', allc['dispatch'], rdis), ('real', real, rreal)):
+    for kind, cases, res in (('neartie', near, rnear), ('select', allc['select'], rsel), ('filter', allc['filter'], rfil), ('dispatch', allc['dispatch'], rdis), ('real', real, rreal)):
         for case, probs in zip(cases, res):
             ctx.case(kind + '|' + json.dumps(case, sort_keys=True, default=str))
             for p, detail in probs:
@@ -209,6 +237,8 @@ def run(ctx):
                     b = '%s,%s' % (case['parametric'], case['bounded'])
                 elif kind == 'dispatch':
                     b = '%s,raises=%d' % (case['form'], len(_set(case['raises'])))
+                elif kind == 'neartie':
+                    b = 'n=%d' % case[0]
                 else:
                     b = case[0]
                 ctx.violation('C05|%s|%s|%s' % (kind, p, b), '%s: %s' % (p, detail), case if not isinstance(case, tuple) else list(case))
